@@ -779,7 +779,11 @@ func chunkSegment(init *mp4.InitSegment, seg *mp4.MediaSegment, segMeta segMeta,
 		}
 		fs = append(fs, ff...)
 	}
-	chunks := make([]chunk, 0, segMeta.newDur/uint32(chunkDur))
+	if chunkDur <= 0 {
+		// The availabilityTimeOffset is not less than the segment duration, so every sample is its own chunk
+		chunkDur = 1
+	}
+	chunks := make([]chunk, 0, min(int(segMeta.newDur)/chunkDur, len(fs)))
 	trackID := init.Moov.Trak.Tkhd.TrackID
 	ch := createChunk(seg.Styp, trackID, segMeta.newNr)
 	for _, c := range seg.Fragments[0].Children {
